@@ -28,6 +28,42 @@ CLAIMED = {
             "Trusted: map model interval computation; byte-string bounds are kept prefix-free w.r.t. stored keys "
             "(checked by the runner, skipped and counted otherwise).",
             "model-based property testing + metamorphic (buffer address swap)", "5 C02"),
+    "C03": ("olc", "exploration",
+            "Generated programs (initial trees around a focus node at every size-class boundary, with inner "
+            "children and sibling branches; 2-3 threads of get/insert/remove) run on real QSBR threads under the "
+            "deterministic scheduler; every schedule with <= 1 preemption and, up to a cap, <= 2 preemptions is "
+            "executed, plus PCT and random walks; the stamped history must be per-key linearizable (Wing-Gong "
+            "search with unique values), including a final read of every key.",
+            "SC at hook granularity (memory-order-only defects invisible); uint64 keys; exhaustive only to the "
+            "stated preemption bound on the generated programs.",
+            "schedule enumeration (bounded-preemption search, PCT, random walk) + per-key linearizability checker",
+            "5 C03"),
+    "C04": ("olc", "exploration",
+            "The C03 executions extended with scans and explicit quiescent-state placement, built with ASan; "
+            "readers keep every value view they were given and re-read it before their next quiescent state; "
+            "allocate/free notifications decide exactly-once reclamation (live bytes == reported memory use after "
+            "the drain, destruction empties the live set); a single-threaded sweep touches every node afterwards.",
+            "ASan detects accesses to freed blocks only while they sit in its quarantine (default 256 MB: far "
+            "more than one execution frees); same scheduler assumptions as C03.",
+            "schedule enumeration + sanitizer + held-view re-reads + allocator accounting", "5 C04"),
+    "C09": ("olc", "exploration",
+            "Programs with one or two scanner threads (all scan kinds, both directions, early halt) and writers that "
+            "restructure the scanned neighbourhood; the visitor callback is a scheduling point; per scan the "
+            "order / bounds / value-validity / exactly-once-for-stable-keys oracle is evaluated against the "
+            "stamped writer history.",
+            "Completeness is demanded only for keys with no writer overlapping the scan (weakest reading); value "
+            "validity uses a sound, incomplete criterion (a value is rejected only if its key definitely did not "
+            "hold it during the scan).",
+            "schedule enumeration + history-based scan oracle", "5 C09"),
+    "C14": ("olc", "exploration",
+            "Every execution of the OLC programs (point operations and scans) ends either normally or with a "
+            "scheduler verdict: deadlock = all unfinished threads spin without any store/CAS progress; after each "
+            "execution a single-threaded sweep (gets, full scans, insert+remove probes next to every key) must "
+            "never reach a spin-wait (a lock left behind); exceeding the step bound is reported as inconclusive.",
+            "Liveness is decided as bounded progress under the deterministic scheduler's fair default "
+            "continuation; unbounded starvation is out of reach of finite programs. The allocation-failure part "
+            "(C08 fault points on olc_db) is not covered by this check yet.",
+            "schedule enumeration with deadlock / lock-left-behind / bounded-progress verdicts", "5 C14"),
     "C05": ("qsbr", "exploration",
             "Programs of 2-4 real QSBR threads over abstract objects (catalogue of epoch-change races scripted with "
             "harness-level await constraints + generated programs) run under the deterministic scheduler with "
@@ -139,6 +175,10 @@ def main():
             {"name": "enc", "path": "src/enc", "serves_properties": ["C11", "C12", "C15"],
              "kind_free_text": "exhaustive chain enumerator (optimised build) + seeded generator of component tuples "
                                "with value shrinking (ASan+UBSan build); oracle restates the documented total order"},
+            {"name": "olc", "path": "src/conc_olc (scheduler: src/sched)",
+             "serves_properties": ["C03", "C04", "C09", "C14"],
+             "kind_free_text": "same scheduler engine over olc_db with linearizability, scan, reclamation and "
+                               "deadlock oracles; ASan+UBSan+assertions+stats build"},
             {"name": "qsbr", "path": "src/conc_qsbr (scheduler: src/sched)", "serves_properties": ["C05", "C06"],
              "kind_free_text": "same scheduler engine; programs over abstract objects with free-notification oracles"},
             {"name": "lock", "path": "src/conc_lock (scheduler: src/sched)", "serves_properties": ["C07"],
